@@ -375,7 +375,7 @@ impl<'a> Run<'a> {
                 }
             }
         }
-        // ---------------- commands (table keyed by name, as coded)
+        // ---------------- commands (table keyed by (context, name))
         for (ci, c) in fs.iter().enumerate() {
             if c.inc != cur {
                 continue;
@@ -392,7 +392,7 @@ impl<'a> Run<'a> {
             }
             if c.suf == "call" {
                 let def = fs[..ci].iter().rev().find(|f| {
-                    f.suf == "define" && f.name == c.name
+                    f.suf == "define" && f.name == c.name && f.ctx == c.ctx
                         && self.by_id.get(&f.id).map(|(_, k)| self.kind(k)["valid"].as_bool().unwrap_or(true)).unwrap_or(false)
                 });
                 let Some(def) = def else { continue };
@@ -417,7 +417,10 @@ impl<'a> Run<'a> {
             let sid = |f: &Fr| meta_str(&f.meta, "source_id") == Some(g.id.as_str());
             if g.inc != cur {
                 // restored iff it is the last spawn / spawn.error of its name before this incarnation
-                let later = fs[gi + 1..].iter().any(|f| f.inc < cur && f.name == g.name && (f.suf == "spawn" || f.suf == "spawn.error"));
+                let later = fs[gi + 1..].iter().any(|f| {
+                    f.inc < cur && f.name == g.name && f.ctx == g.ctx
+                        && (f.suf == "spawn" || (f.suf == "spawn.error" && meta_str(&f.meta, "source_id") == Some(g.id.as_str())))
+                });
                 if later {
                     continue;
                 }
@@ -435,7 +438,7 @@ impl<'a> Run<'a> {
             let stops = fs.iter().filter(|f| f.inc == cur && f.name == g.name && f.suf == "stop" && sid(f)).count();
             if kind["duplex"].as_bool().unwrap_or(false) {
                 let start_i = fs.iter().position(|f| f.inc == cur && f.name == g.name && f.suf == "start" && sid(f)).unwrap_or(0);
-                let sends = fs[start_i..].iter().filter(|f| f.name == g.name && f.suf == "send").count();
+                let sends = fs[start_i..].iter().filter(|f| f.name == g.name && f.suf == "send" && f.ctx == g.ctx).count();
                 let recvs = fs.iter().filter(|f| f.inc == cur && f.name == g.name && f.suf == "recv" && sid(f)).count();
                 if recvs < sends * kind["per_send"].as_u64().unwrap_or(1) as usize {
                     p.push(format!("echo of {} ({recvs}/{sends})", g.topic));
